@@ -116,9 +116,19 @@ class IdleReleaseExternalRunAdapter(BaseExternalRunAdapterDecorator):
             if self.run_id not in self._runtime._active_run_ids:
                 await self._runtime._ensure_active_run_locked(self.run_id)
             else:
+                # The run may announce idle while this write is in flight; that
+                # stamp would outlive the clear and let the release timer abort
+                # the run with this event still queued. Clear until none is left.
+                idle_run_ids = self._runtime._idle_run_ids
+                idle_run_ids.discard(self.run_id)
                 await self._runtime._store.update_handler_status(
                     self.run_id, idle_since=None
                 )
+                while self.run_id in idle_run_ids:
+                    idle_run_ids.discard(self.run_id)
+                    await self._runtime._store.update_handler_status(
+                        self.run_id, idle_since=None
+                    )
             await self._decorated.send_event(tick)
 
 
